@@ -1882,3 +1882,5 @@ V("c08-select-where-known", "C08", "fire", UT, "        unknown_edges = (ordered
 _SCAN_MOVED = '        found = False\n        i = 0\n        while not found and i < len(P):\n            # Check condition 1\n            sink = len(ch(i, P)) == 0\n            # Check condition 2\n            n_i = neighbors(i, P)\n            adj_i = adj(i, P)\n            adj_neighbors = np.all([adj_i - {y} <= adj(y, P) for y in n_i])\n            found = sink and adj_neighbors\n            if not found:\n                i += 1\n        if not found:\n            raise ValueError("PDAG %s does not admit consistent extension" % oP)\n        real_i = indexes[i]\n        real_neighbors = [indexes[j] for j in n_i]\n        for j in real_neighbors:\n            G[j, real_i] = 1\n        all_but_i = list(set(range(len(P))) - {i})\n        P = P[all_but_i, :][:, all_but_i]\n        indexes.remove(real_i)\n'
 for _pid in ("C08", "C09"):
     V("%s-bookkeeping-after-scan" % _pid.lower(), _pid, "undecided", UT, _SCAN_OLD, _SCAN_MOVED, what="the accepted node is processed after the scan loop (code motion): another form")
+VL("c20-location-scale-abs-sd", "C20", "undecided", _ls(sd="abs(var**0.5)"), rule=None, what="abs of the standard deviation: the same law; an opaque atom for the polynomial form (was reported by C04 for a wrong reason on seed C20-r5-2)")
+VL("c04-location-scale-abs-sd", "C04", "undecided", _ls(sd="abs(var**0.5)"), rule=None, what="abs of the standard deviation: the same law")
